@@ -333,7 +333,8 @@ class OperandNode(ASTNode):
             value = self.value
             if value.startswith('"') and value.endswith('"'):
                 value = value[1:-1]
-            value = value.replace('""', r'\"')
+            value = value.replace('\\', r'\\').replace('""', r'\"')
+            value = value.replace('\n', r'\n').replace('\r', r'\r')
             return f'"{value}"'
 
         else:
